@@ -249,11 +249,35 @@ func (ex *Exec) modelled(st *State, ref string, fn *types.Func, recv *Val, args 
 			}
 		}
 	case "strconv.AppendInt", "strconv.AppendUint", "strconv.AppendFloat", "strconv.AppendBool", "strconv.AppendQuote":
-		// some longer byte slice; no other effect
+		// the buffer followed by the text strconv produces for the value; no other effect
 		if len(args) >= 1 && args[0].Sh != nil && args[0].Sh.Kind == "slice" {
 			r := ex.freshVal(r0(), "appended")
 			st.assume("(>= " + r.kid("len").S + " " + args[0].kid("len").S + ")")
+			text := ""
+			switch ref {
+			case "strconv.AppendInt", "strconv.AppendUint":
+				if len(args) == 3 && isConstInt(args[2], 10) {
+					text = ex.itoaTerm(args[1].S)
+				}
+			case "strconv.AppendFloat":
+				if len(args) == 5 {
+					text = ex.ftoaTerm(args[1], args[2], args[3], args[4])
+				}
+			case "strconv.AppendBool":
+				if len(args) == 2 {
+					text = "(ite " + args[1].S + " \"true\" \"false\")"
+				}
+			}
+			if text != "" && ex.bound == 0 {
+				ex.eng.smt.declFun("uf_bytesOf", "(declare-fun uf_bytesOf (String) (Array Int Int))")
+				st.assume("(= " + r.kid("len").S + " (+ " + args[0].kid("len").S + " (str.len " + text + ")))")
+				st.assume("(=> (= " + args[0].kid("len").S + " 0) (= " + r.kid("elems").S + " (uf_bytesOf " + text + ")))")
+			}
 			return one(r)
+		}
+	case "strings.Compare":
+		if len(args) == 2 && args[0].Sh != nil && args[0].Sh.IsLeaf() && args[0].Sh.Leaf == "String" {
+			return one(ex.intVal("(ite (str.< "+args[0].S+" "+args[1].S+") (- 1) (ite (= "+args[0].S+" "+args[1].S+") 0 1))", r0()))
 		}
 	case "cmp.Less":
 		if len(args) == 2 && args[0].Sh != nil && args[0].Sh.IsLeaf() {
@@ -525,9 +549,36 @@ func (ex *Exec) modelled(st *State, ref string, fn *types.Func, recv *Val, args 
 				}
 				return one(&Val{Sh: ex.eng.sh.shapeOf(r0()), T: r0(), S: "(str.++ " + strings.Join(parts, " ") + ")"})
 			}
+			if len(args) == 2 && f == "%v" {
+				if t := ex.fmtVTerm(args[1]); t != "" {
+					return one(&Val{Sh: ex.eng.sh.shapeOf(r0()), T: r0(), S: t})
+				}
+			}
 		}
 		return one(ex.freshVal(r0(), "fmt"))
-	case "fmt.Sprint", "fmt.Sprintln", "strconv.Itoa", "strconv.FormatInt", "strconv.FormatUint", "strconv.FormatFloat", "strconv.FormatBool", "strconv.Quote":
+	case "strconv.Itoa", "strconv.FormatInt", "strconv.FormatUint":
+		if len(args) == 1 || (len(args) == 2 && isConstInt(args[1], 10)) {
+			return one(&Val{Sh: ex.eng.sh.shapeOf(r0()), T: r0(), S: ex.itoaTerm(args[0].S)})
+		}
+		return one(ex.freshVal(r0(), "fmt"))
+	case "strconv.FormatFloat":
+		if len(args) == 4 {
+			return one(&Val{Sh: ex.eng.sh.shapeOf(r0()), T: r0(), S: ex.ftoaTerm(args[0], args[1], args[2], args[3])})
+		}
+		return one(ex.freshVal(r0(), "fmt"))
+	case "strconv.FormatBool":
+		if len(args) == 1 {
+			return one(&Val{Sh: ex.eng.sh.shapeOf(r0()), T: r0(), S: "(ite " + args[0].S + " \"true\" \"false\")"})
+		}
+		return one(ex.freshVal(r0(), "fmt"))
+	case "fmt.Sprint":
+		if len(args) == 1 {
+			if t := ex.fmtVTerm(args[0]); t != "" {
+				return one(&Val{Sh: ex.eng.sh.shapeOf(r0()), T: r0(), S: t})
+			}
+		}
+		return one(ex.freshVal(r0(), "fmt"))
+	case "fmt.Sprintln", "strconv.Quote":
 		return one(ex.freshVal(r0(), "fmt"))
 	case "errors.Is":
 		// deterministic in (err, target); true when they are the same value, false for a nil error
@@ -894,4 +945,92 @@ func (ex *Exec) ownsCheck(st *State, loc *Loc, at interface{ Pos() token.Pos }) 
 	cur := ex.readLoc(st, ol)
 	ex.ownsN++
 	ex.obligNamed(st, "owns", fmt.Sprintf("owns:write(%s.%s)#%d", loc.TKey, strings.Join(loc.Path, "."), ex.ownsN), at.Pos(), cur.S, "write to "+loc.TKey+"."+strings.Join(loc.Path, ".")+" requires ownership (the object has not been handed to a transmission)")
+}
+
+
+// ---- number formatting (strconv / fmt): the text is an uninterpreted function of the number and the format;
+// the only facts assumed are that a whole number within float64's exact range prints, in 'f' format with the
+// shortest precision, as its decimal integer, and that %v / 'g' does the same below 10^6 (above it %v switches
+// to exponent notation).
+
+func isConstInt(v *Val, n int64) bool {
+	if v == nil || v.C == nil || v.C.Kind() != constant.Int {
+		return false
+	}
+	x, ok := constant.Int64Val(v.C)
+	return ok && x == n
+}
+
+func (ex *Exec) itoaTerm(n string) string {
+	ex.eng.smt.declFun("uf_itoa", "(declare-fun uf_itoa (Int) String)")
+	ex.assumption("strconv / fmt: the decimal text of an integer is an uninterpreted function of its value")
+	return "(uf_itoa " + n + ")"
+}
+
+func (ex *Exec) ftoaRaw(x, fmtc, prec, bits string) string {
+	ex.eng.smt.declFun("uf_itoa", "(declare-fun uf_itoa (Int) String)")
+	ex.eng.smt.declFun("uf_ftoa", "(declare-fun uf_ftoa (Real Int Int Int) String)")
+	ex.assumption("strconv / fmt: the text of a float is an uninterpreted function of (value, format, precision, bit size); a whole number of magnitude <= 2^53 prints in ('f', -1) as its decimal integer, and in ('g', -1) / %v likewise below 10^6; ('g', -1) equals ('f', -1) for 1e-4 <= |x| < 1e6 and for 0")
+	term := "(uf_ftoa " + x + " " + fmtc + " " + prec + " " + bits + ")"
+	if ex.bound > 0 {
+		return term
+	}
+	name := ex.eng.smt.fresh("ftoa", "String")
+	ex.eng.smt.addAx(name, "(= "+name+" "+term+")")
+	whole := "(and (is_int " + x + ") (<= (- 9007199254740992.0) " + x + ") (<= " + x + " 9007199254740992.0))"
+	small := "(and (< (- 1000000.0) " + x + ") (< " + x + " 1000000.0))"
+	ex.eng.smt.addAx(name, "(=> (and (= "+fmtc+" 102) (= "+prec+" (- 1)) "+whole+") (= "+name+" (uf_itoa (to_int "+x+"))))")
+	ex.eng.smt.addAx(name, "(=> (and (= "+fmtc+" 103) (= "+prec+" (- 1)) "+whole+" "+small+") (= "+name+" (uf_itoa (to_int "+x+"))))")
+	// with the shortest precision, 'g' (and so %v) only differs from 'f' by switching to exponent notation
+	// when the decimal exponent is < -4 or >= 6
+	mid := "(or (= " + x + " 0.0) (and (<= 0.0001 " + x + ") (< " + x + " 1000000.0)) (and (<= " + x + " (- 0.0001)) (< (- 1000000.0) " + x + ")))"
+	ex.eng.smt.addAx(name, "(=> (and (= "+fmtc+" 103) (= "+prec+" (- 1)) "+mid+") (= "+name+" (uf_ftoa "+x+" 102 (- 1) "+bits+")))")
+	return name
+}
+
+func (ex *Exec) ftoaTerm(x, fmtc, prec, bits *Val) string {
+	return ex.ftoaRaw(x.S, fmtc.S, prec.S, bits.S)
+}
+
+// fmtVTerm: the text fmt produces for one operand under %v ("" when the operand's kind is not modelled).
+func (ex *Exec) fmtVTerm(v *Val) string {
+	if v == nil || v.Sh == nil {
+		return ""
+	}
+	if v.Sh.Kind == "any" {
+		tag := v.kid("tag").S
+		is := func(t int) string { return eq(tag, fmt.Sprint(t)) }
+		ex.eng.smt.declFun("uf_fmtother", "(declare-fun uf_fmtother (Int Int Int String) String)")
+		other := "(uf_fmtother " + v.kid("ty").S + " " + v.kid("i").S + " " + v.kid("ref").S + " " + v.kid("s").S + ")"
+		f64 := ex.ftoaRaw(v.kid("r").S, "103", "(- 1)", "64")
+		f32 := ex.ftoaRaw(v.kid("r").S, "103", "(- 1)", "32")
+		return ite(is(0), smtString("<nil>"),
+			ite(or(is(tagInt64), is(tagInt), is(tagUint64)), ex.itoaTerm(v.kid("i").S),
+				ite(is(tagString), v.kid("s").S,
+					ite(is(tagBool), "(ite "+v.kid("b").S+" \"true\" \"false\")",
+						ite(is(tagFloat), f64, ite(is(tagF32), f32, other))))))
+	}
+	if !v.Sh.IsLeaf() || v.T == nil {
+		return ""
+	}
+	b, ok := v.T.Underlying().(*types.Basic)
+	if !ok {
+		return ""
+	}
+	if _, named := types.Unalias(v.T).(*types.Named); named {
+		return "" // may have a String method
+	}
+	switch {
+	case b.Info()&types.IsString != 0:
+		return v.S
+	case b.Info()&types.IsInteger != 0:
+		return ex.itoaTerm(v.S)
+	case b.Info()&types.IsBoolean != 0:
+		return "(ite " + v.S + " \"true\" \"false\")"
+	case b.Kind() == types.Float64 || b.Kind() == types.UntypedFloat:
+		return ex.ftoaRaw(v.S, "103", "(- 1)", "64")
+	case b.Kind() == types.Float32:
+		return ex.ftoaRaw(v.S, "103", "(- 1)", "32")
+	}
+	return ""
 }
